@@ -26,10 +26,10 @@ Proof. exact totalwrite_exact. Qed.
 Print Assumptions C22_totalwrite_exact.
 
 (* Stream preservation of the Reader.  Let S be the byte stream of the scripted source (bytes >= 0).  For every
-   buffer size, every chunking/error script and every history of the core operations Read (1), ReadByte (2),
-   UnreadByte (3), ReadSlice (4), ReadLine (5), Peek (6), the observations satisfy trace_ok S 0, i.e. with pos the
-   value of TotalRead before an operation and t after it (obs_law):
-     Read / ReadSlice : the returned bytes are exactly S[pos, pos+len) and t = pos + len
+   buffer size, every chunking/error script and every history of the modelled operations Read (1), ReadByte (2),
+   UnreadByte (3), ReadSlice (4), ReadLine (5), Peek (6), ReadBytes (8), WriteTo (9), the observations satisfy
+   trace_ok S 0, i.e. with pos the value of TotalRead before an operation and t after it (obs_law):
+     Read / ReadSlice / ReadBytes / WriteTo : the bytes handed out are exactly S[pos, pos+len) and t = pos + len
      ReadByte         : on success the byte is S[pos] and t = pos + 1, otherwise t = pos
      Peek             : the returned bytes are exactly S[pos, pos+len) and t = pos
      ReadLine         : S[pos, t) is the returned line followed by nothing, LF or CR LF
@@ -40,20 +40,38 @@ Print Assumptions C22_totalwrite_exact.
    the read index are the bytes consumed last. *)
 Theorem C22_reader_stream : forall size src ops obs,
   Forall (fun b => 0 <= b) (script_stream src) ->
-  forallb core_op ops = true ->
   reader_run ops (new_reader size src) = Some obs ->
   trace_ok (script_stream src) 0 ops obs.
 Proof. exact reader_stream. Qed.
 Print Assumptions C22_reader_stream.
 
-(* Non-vacuity: a history with UnreadByte after ReadSlice and after Read, Peek and ReadLine over CR LF split across
-   source chunks meets the hypotheses. *)
+(* Non-vacuity: a history with UnreadByte after ReadSlice and after Read, Peek, ReadLine over CR LF split across
+   source chunks, ReadBytes and WriteTo meets the hypotheses. *)
 Example C22_reader_stream_example :
   let src := [([97;98;99;10], 0); ([100;13], 0); ([10;101], 1)] in
-  let ops := [VL [VZ 2]; VL [VZ 4; VZ 10]; VL [VZ 3]; VL [VZ 2]; VL [VZ 6; VZ 3]; VL [VZ 5]; VL [VZ 1; VZ 40]; VL [VZ 3]; VL [VZ 5]] in
-  Forall (fun b => 0 <= b) (script_stream src) /\ forallb core_op ops = true /\
+  let ops := [VL [VZ 2]; VL [VZ 4; VZ 10]; VL [VZ 3]; VL [VZ 2]; VL [VZ 6; VZ 3]; VL [VZ 5]; VL [VZ 1; VZ 40]; VL [VZ 3]; VL [VZ 8; VZ 10]; VL [VZ 9]] in
+  Forall (fun b => 0 <= b) (script_stream src) /\
   exists obs, reader_run ops (new_reader 16 src) = Some obs.
 Proof. exact reader_stream_example. Qed.
+
+(* Stream preservation of the Writer.  For every buffer size, every sink script (short writes, errors) and every
+   history of the modelled operations Write (1), WriteByte (2), WriteString (3), Flush (4), ReadFrom (6): with A the
+   concatenation of the accepted bytes (the first n bytes of every Write/WriteString that returned n, every byte whose
+   WriteByte succeeded, the first n bytes of the reader's stream for a ReadFrom that returned n), after every
+   operation TotalWrite = |A| (wtrace_ok), a count n < len(data) comes with an error, a successful Flush leaves
+   nothing buffered, and at the end the underlying writer has received exactly a prefix of A - the rest of A is
+   what is still buffered.  Nothing is lost, duplicated or reordered on the way to the sink. *)
+Theorem C22_writer_stream : forall size sink ops obs,
+  writer_run ops (new_writer size sink) = Some obs ->
+  wtrace_ok [] ops obs.
+Proof. exact writer_stream. Qed.
+Print Assumptions C22_writer_stream.
+
+(* Non-vacuity: a history over a sink with a short write and an error. *)
+Example C22_writer_stream_example :
+  exists obs, writer_run [VL [VZ 1; VB [1;2;3;4;5;6;7]]; VL [VZ 2; VZ 8]; VL [VZ 6; VL [VL [VB [9;10;11]; VZ 1]]]; VL [VZ 3; VB [12;13]]; VL [VZ 4]]
+                         (new_writer 4 [(2, 0); (5000, 0); (1, 8)]) = Some obs.
+Proof. exact writer_stream_example. Qed.
 
 (* The scripted source hands out its stream in order: what one source Read returns, followed by what the rest of
    the script will return, is the stream. *)
